@@ -332,6 +332,20 @@ class Ctx(object):
         return sub
 
 
+def replay_case(run_case, record, restrict=('only_op', 'only_prog', 'only_hist', 'only')):
+    """Re-execute the case of a violation record: first restricted to the recorded operation,
+    and, if that does not show the recorded signature (the violation depends on the operations
+    applied before it to the same object), the whole case in its original order."""
+    case = record['case']
+    order = int(record.get('order', 0) or 0)
+    acc = Acc()
+    run_case(case, acc, order)
+    if record['signature'] not in acc.violations and any(k in case for k in restrict):
+        acc = Acc()
+        run_case({k: v for k, v in case.items() if k not in restrict}, acc, order)
+    return [dict(v['record'], signature=sig) for sig, v in acc.violations.items()]
+
+
 # ---------------------------------------------------------------------------
 # known findings, replay files, evidence
 # ---------------------------------------------------------------------------
